@@ -517,8 +517,15 @@ class CallMixin:
         items = v.items if isinstance(v, (PList, PTuple, PSet)) else None
         if items is None:
             return self.decide(f"{'any' if is_any else 'all'}:{self.describe(v)}")
+        def flat(xs):
+            for x in xs:
+                if isinstance(x, Rep):
+                    yield from flat(x.items)
+                else:
+                    yield x
+
         for i in items:
-            vals = i.items if isinstance(i, Rep) else [i]
+            vals = list(flat([i]))
             for x in vals:
                 if isinstance(x, Splice):
                     raise AnalysisError("any/all over a spliced list")
@@ -698,11 +705,27 @@ class CallMixin:
                     return v
             return default
         if name == "items":
-            return PList([PTuple([k, v]) for k, v in d.pairs])
+            return PList([PTuple([k, v]) for k, v in d.pairs] + list(d.sym))
         if name == "keys":
-            return PList([k for k, _ in d.pairs])
+            return PList([k for k, _ in d.pairs] + [Rep([r.items[0].items[0]], r.over, r.elem) for r in d.sym])
         if name == "values":
-            return PList([v for _, v in d.pairs])
+            return PList([v for _, v in d.pairs] + [Rep([r.items[0].items[1]], r.over, r.elem) for r in d.sym])
+        if name == "pop" and args and isinstance(args[0], Cst):
+            if d.shared:
+                self.effects.append({"kind": "shared-write", "target": "dict", "site": self.cur_site})
+            for i, (k, v) in enumerate(d.pairs):
+                if isinstance(k, Cst) and k.value == args[0].value:
+                    del d.pairs[i]
+                    return v
+            for r in d.sym:
+                # "the" entry of the symbolic part that has this key, if there is one
+                if self.decide(f"haskey:{r.over}:{args[0].value!r}"):
+                    return r.items[0].items[1]
+            if len(args) > 1:
+                return args[1]
+            from .interp_base import Raised
+
+            raise Raised("KeyError", repr(args[0].value), self.cur_site)
         if name in ("update", "setdefault", "pop", "clear", "popitem"):
             if d.shared:
                 self.effects.append({"kind": "shared-write", "target": "dict", "site": self.cur_site})
